@@ -87,26 +87,28 @@ LeakFails(e) ==
 (* the implementation's own HMAC invocations, observed through the verif hook *)
 (* e.mac = <<[slot, key, msg, sum], ...>>, e.macn = number of invocations, -1 = not observed *)
 StageFails(e, x) ==
-    IF e.macn < 0 \/ x.class \notin {"value", "accept", "refuse"} \/ B32!Region(e.secret) # "accept"
+    (* e.macn >= 1: the hook observed HMAC evaluations.  0 means the call did not go through the observed      *)
+    (* constructor (nothing to compare), -1 that no hook is installed.  How often HMAC is evaluated is not      *)
+    (* constrained here (only C04's work bound is); SOME evaluation must be the one the property describes.     *)
+    IF e.macn < 1 \/ x.class \notin {"value", "accept", "refuse"} \/ B32!Region(e.secret) # "accept"
        \/ e.op \notin {"GenerateHOTP", "ValidateHOTP", "GenerateTOTP", "ValidateTOTP", "GenerateOCRA", "ValidateOCRA"}
     THEN <<>>
     ELSE LET key == B32!KeyOf(e.secret)
              alg == CASE e.op \in {"GenerateHOTP", "ValidateHOTP"} -> ResolveHOTP(P(e)).alg
                       [] e.op \in {"GenerateTOTP", "ValidateTOTP"} -> ResolveTOTP(P(e)).alg
                       [] OTHER -> EffCfg(e.x.su).hash
-         IN  F(\A i \in DOMAIN e.mac : e.mac[i][2] = key, e, OwnProp(e), "HMAC keyed with something else than the decoded secret")
-          \o F(\A i \in DOMAIN e.mac : e.mac[i][1] = alg, e, OwnProp(e), "HMAC of another hash than requested")
-          \o F(\A i \in DOMAIN e.mac : OLook(e.orc, e.mac[i][1], e.mac[i][2], e.mac[i][3]) \in {NoDigest, e.mac[i][4]},
+             Has(m) == \E i \in DOMAIN e.mac : e.mac[i][1] = alg /\ e.mac[i][2] = key /\ e.mac[i][3] = m
+         IN  F(\A i \in DOMAIN e.mac : OLook(e.orc, e.mac[i][1], e.mac[i][2], e.mac[i][3]) \in {NoDigest, e.mac[i][4]},
                e, OwnProp(e), "observed digest differs from HMAC(key, msg)")
           \o (IF e.op = "GenerateHOTP" /\ x.class = "value"
-              THEN F(e.macn = 1 /\ e.mac[1][3] = e.ctr, e, "C01", "message is not the 8-byte big-endian counter")
+              THEN F(Has(e.ctr), e, "C01", "no HMAC evaluation with the requested hash over the 8-byte big-endian counter under the decoded secret")
               ELSE <<>>)
           \o (IF e.op = "GenerateTOTP" /\ x.class = "value"
-              THEN F(e.macn = 1 /\ e.mac[1][3] = e.step, e, "C02", "message is not the big-endian time step floor(t/period)")
+              THEN F(Has(e.step), e, "C02", "no HMAC evaluation over the big-endian time step floor(t/period) under the decoded secret")
               ELSE <<>>)
           \o (IF e.op = "GenerateOCRA" /\ x.class = "value"
-              THEN F(e.macn = 1 /\ e.mac[1][3] = O!Msg(EffCfg(e.x.su), e.x.in), e, "C05",
-                     "message is not suite-string, 0x00, then the selected fields C Q P S T in the documented layout")
+              THEN F(Has(O!Msg(EffCfg(e.x.su), e.x.in)), e, "C05",
+                     "no HMAC evaluation over suite-string, 0x00, then the selected fields C Q P S T in the documented layout")
               ELSE <<>>)
 
 Fails(e, x) ==
